@@ -188,7 +188,12 @@ static void count_point(int kind, const void *obj) {
         fatal(VS_F_LIVELOCK, msg);
     }
     trace(kind, obj);
-    if (cfg.on_point) cfg.on_point(kind, obj);
+    if (cfg.on_point) {
+        /* the hook may read substituted atomics: no scheduling points inside it */
+        T[cur].suppress++;
+        cfg.on_point(kind, obj);
+        T[cur].suppress--;
+    }
 }
 
 extern "C" void vs_point(int kind, const void *obj) {
@@ -262,8 +267,10 @@ extern "C" void vs_mutex_unlock(vs_mutex_t *m) {
 extern "C" int vs_cv_wait(const void *cv, vs_mutex_t *m, int timed) {
     if (m->owner != cur) fatal(VS_F_MISUSE, "condition wait without owning the mutex");
     int saved = m->count;
-    count_point(VS_K_CVWAIT, cv);
-    if (cur == lastthr) streak++; else { lastthr = cur; streak = 0; }
+    /* a scheduling point before the thread releases the mutex and blocks: a notifier that does not take the mutex can run
+     * between the caller's predicate evaluation and the block (lost wake-up window); with a mutex-protected notifier the
+     * point is harmless, the notifier just blocks on the mutex */
+    vs_point(VS_K_CVWAIT, cv);
     m->owner = -1;
     m->count = 0;
     Thr &me = T[cur];
